@@ -189,6 +189,9 @@ class Resolver:
             l = self.poly(v[2], depth + 1)
             r = self.poly(v[3], depth + 1)
             return l + r if v[1] == "+" else l - r if v[1] == "-" else l * r
+        if t == "op" and v[1] in ("/", "%") and getattr(self, "opaque_division", False):
+            # truncated division is outside the ring: an opaque atom over the normal forms of its operands
+            return Poly.atom(("div" if v[1] == "/" else "mod", self.poly(v[2], depth + 1), self.poly(v[3], depth + 1)))
         if t == "op1" and v[1] in ("-", "+"):
             x = self.poly(v[2], depth + 1)
             return -x if v[1] == "-" else x
